@@ -66,6 +66,14 @@ pub trait Kind<'a>: ValueInput<'a, Token: Tok, Span: SpanObs> + Sized + 'a {
     fn tpadded<E: ErrTy<'a, Self>>(_p: P<'a, Self, E>) -> Result<P<'a, Self, E>, String> {
         Err(format!("input kind {} is not text", Self::NAME))
     }
+    /// one_of / none_of: a Vec of tokens by default; text inputs use a string as the set, as users write it
+    fn one_of_set<E: ErrTy<'a, Self>>(ts: &[char], negate: bool) -> P<'a, Self, E> {
+        if negate {
+            none_of::<_, Self, X<E>>(tks::<Self::Token>(ts)).map(|t: Self::Token| Val::T(t.ch())).bxd()
+        } else {
+            one_of::<_, Self, X<E>>(tks::<Self::Token>(ts)).map(|t: Self::Token| Val::T(t.ch())).bxd()
+        }
+    }
     /// any_ref() / select_ref!: only inputs that can lend their tokens (BorrowInput)
     fn any_ref<E: ErrTy<'a, Self>>() -> Result<P<'a, Self, E>, String> {
         Err(format!("input kind {} cannot lend tokens", Self::NAME))
@@ -164,6 +172,14 @@ fn kw_bytes(arg: &str) -> KwB {
 impl<'a> Kind<'a> for &'a str {
     const NAME: &'static str = "str";
     text_impl!(&'a str, char, kw_str, nl_str());
+    fn one_of_set<E: ErrTy<'a, Self>>(ts: &[char], negate: bool) -> P<'a, Self, E> {
+        let set: String = ts.iter().collect();
+        if negate {
+            none_of::<_, Self, X<E>>(set).map(Val::T).bxd()
+        } else {
+            one_of::<_, Self, X<E>>(set).map(Val::T).bxd()
+        }
+    }
     fn base(&self) -> (usize, usize) {
         (self.as_ptr() as usize, 1)
     }
@@ -489,8 +505,8 @@ where
                 .bxd()
         }
         G::Any => any::<I, X<E>>().map(|t: I::Token| crate::val::Val::T(t.ch())).bxd(),
-        G::OneOf(ts) => one_of::<_, I, X<E>>(tks::<I::Token>(ts)).map(|t: I::Token| crate::val::Val::T(t.ch())).bxd(),
-        G::NoneOf(ts) => none_of::<_, I, X<E>>(tks::<I::Token>(ts)).map(|t: I::Token| crate::val::Val::T(t.ch())).bxd(),
+        G::OneOf(ts) => I::one_of_set::<E>(ts, false),
+        G::NoneOf(ts) => I::one_of_set::<E>(ts, true),
         G::Sel(ts) => {
             let ts = ts.clone();
             chumsky::primitive::select(move |t: I::Token, _| {
